@@ -140,6 +140,10 @@ func Kinds() []*Kind {
 		}},
 		{Name: "packetdump-receiver", Variants: 3, New: func(v int) (interceptor.Interceptor, *Extra, error) {
 			x := &Extra{DumpRTP: &bytes.Buffer{}, DumpRTCP: &bytes.Buffer{}}
+			if v == 0 {
+				// both dumps go to one writer that is not safe for concurrent use (the default is os.Stdout for both)
+				x.DumpRTCP = x.DumpRTP
+			}
 			opts := []packetdump.PacketDumperOption{packetdump.RTPWriter(x.DumpRTP), packetdump.RTCPWriter(x.DumpRTCP)}
 			if v == 1 {
 				opts = append(opts, packetdump.RTPBinaryFormatter(dumpBinary))
@@ -153,6 +157,10 @@ func Kinds() []*Kind {
 		}},
 		{Name: "packetdump-sender", Variants: 3, New: func(v int) (interceptor.Interceptor, *Extra, error) {
 			x := &Extra{DumpRTP: &bytes.Buffer{}, DumpRTCP: &bytes.Buffer{}}
+			if v == 0 {
+				// both dumps go to one writer that is not safe for concurrent use (the default is os.Stdout for both)
+				x.DumpRTCP = x.DumpRTP
+			}
 			opts := []packetdump.PacketDumperOption{packetdump.RTPWriter(x.DumpRTP), packetdump.RTCPWriter(x.DumpRTCP)}
 			if v == 1 {
 				opts = append(opts, packetdump.RTPBinaryFormatter(dumpBinary))
